@@ -55,6 +55,18 @@ CLAIMED["C13"] = (
     "DESIGN.md section 6, C13",
 )
 
+CLAIMED["C07"] = (
+    "Coq theorems for every matrix and size: the brute-force optimum bounds every one-to-one partial pairing; a proved-sound "
+    "checker (coverage of every source/target exactly once, pairs only with positive affinity reporting M[i][j], one-sided "
+    "entries 0, total maximal) is evaluated in Coq on every real output; the model of the post-processing of the solver "
+    "answer is proved to satisfy the same spec for all sizes given the solver contract. M comes from the real "
+    "compute_affinity; the recorded solver answer post-processed by the model must equal the real output.",
+    "Trusted: Coq kernel/vm_compute; scipy linear_sum_assignment optimality only as contract lsa_spec for sizes beyond 6x6 "
+    "(checked by brute force up to 6x6 on every run); float totals compared with tolerance 1e-9.",
+    "Rocq/Coq proof (sound checker + model theorems) evaluated on real outputs; model/implementation correspondence",
+    "DESIGN.md section 6, C07",
+)
+
 NOT_YET = {}
 
 
